@@ -780,6 +780,34 @@ func runC18(c *Ctx) {
 			cases = append(cases, c18case{t, m, true}, c18case{t, m, false})
 		}
 	}
+	// position sweep: every class of character the writers escape (or copy as a multi-byte sequence) at every byte offset 0..320 of
+	// a long string - as character data, as an attribute value of a simple map, as a link target and as a style string -, behind
+	// fillers of 1- to 4-byte runes. A writer that works in chunks treats a character differently depending on where it falls (the
+	// JSON twin of this sweep caught round-5 seed C17-14); the random strings are far shorter than that.
+	{
+		special := []string{"<", ">", "&", "\"", "'", "\r", "\n", "\t", "é", "€", "\U0001F600", "]]>", "&amp;", "&#60;"}
+		fillers := []string{"a", "é", "€", "\U00010000"}
+		for off := 0; off <= 320; off++ {
+			fill := fillers[off%len(fillers)]
+			pre := strings.Repeat(fill, off/len(fill)) + strings.Repeat("a", off%len(fill))
+			for si := 0; si < 2; si++ {
+				sp := special[(off+si*5)%len(special)]
+				long := pre + sp + "tail" + sp
+				var t *XT
+				switch (off + si) % 4 {
+				case 0:
+					t = list(str(long))
+				case 1:
+					t = mp("k", str(long), "z", str("v"))
+				case 2:
+					t = list(&XT{Kind: 'A', Href: long, Items: []*XT{str(long)}})
+				default:
+					t = styled(long, str(long))
+				}
+				cases = append(cases, c18case{t, 10, true}, c18case{t, 10, false})
+			}
+		}
+	}
 	// list sizes around the cut-off
 	for _, m := range []int{1, 2, 3, 5} {
 		for d := -1; d <= 1; d++ {
